@@ -134,3 +134,14 @@ Definition check_assetpath := mismatches assetpath_ok.
 Definition chunkpath_ok (c : path * path * path * path * path) : bool :=
   let '(t, od, h, ex, r) := c in path_eqb (chunk_out_path od (asset_template t) h ex) r.
 Definition check_chunkpath := mismatches chunkpath_ok.
+(* api.Build, side files: (entry names, outdir, outbase, entry, extension, suffix, reported side file path) *)
+Definition sidepath_ok (c : path * path * path * path * path * path * path) : bool :=
+  let '(t, od, ob, en, ex, suf, r) := c in
+  path_eqb (side_out_path od (entry_rel_path (entry_template t) ob en [] [] ex) suf) r.
+Definition check_sidepath := mismatches sidepath_ok.
+(* api.Build with outfile: (entry names, outfile, hash, reported output path, reported source map path) *)
+Definition outfile_ok (c : path * path * path * path * path) : bool :=
+  let '(t, f, h, r, rm) := c in
+  path_eqb (outfile_out_path (entry_template t) f h) r
+  && path_eqb (side_out_path (fs_dir f) (outfile_rel_path (entry_template t) f h) map_suffix) rm.
+Definition check_outfile := mismatches outfile_ok.
